@@ -231,7 +231,7 @@ class C10Sys:
             self.nreq += 1
             st = dav.effective_status(r)
             info["outcome"] = "put:%s" % st
-            if st in (201, 204):
+            if st in (200, 201, 204):
                 self.model[nm] = b
                 info["success"] = True
         elif kind == "delete":
@@ -239,7 +239,7 @@ class C10Sys:
             r = wr.request("DELETE", self.base + nm)
             self.nreq += 1
             info["outcome"] = "delete:%s" % r.status
-            if r.status == 204:
+            if r.status in (200, 204):
                 self.model.pop(nm, None)
                 info["success"] = True
         elif kind == "qx":
